@@ -4,3 +4,4 @@ pub mod vault;
 pub mod lair;
 pub mod epochs;
 pub mod access;
+pub mod toggles;
